@@ -174,7 +174,9 @@ class _RunnerIterator(iter_utils.MultiplexIterator[_ValueT]):
         ignore_error=self._ignore_error,
         with_result=self._with_result,
         with_agg_state=self._with_agg,
-        state=state.agg_state,
+        # The recovered iterator updates its aggregation state in place: work
+        # on a copy so that the same state can be restored more than once.
+        state=copy.deepcopy(state.agg_state),
     )
     if data_sources is not None:
       return self.__class__(data_sources=data_sources, **kwargs)
